@@ -19,6 +19,7 @@ import ast
 from .. import copycontract
 from ..astutil import call_name, calls, dotted, names_in, param_names, stmts, walk_local
 from ..core import AnalysisError, Mutant
+from ..exprnorm import same_expr, summarize_block
 from ..program import ClassIndex
 
 EXPLANATION = (
@@ -280,8 +281,18 @@ def run(ctx):
     for st in stmts(ag):
         if isinstance(st, ast.Assign) and isinstance(st.targets[0], ast.Name) and st.targets[0].id in ("i_first", "i_last"):
             bounds.setdefault(st.targets[0].id, []).append(ast.unparse(st.value))
+    # composed: i_first / i_last as conditional expressions over the slice (if/else statements or conditional expressions)
+    sl_branch = next((st for st in ag.body if isinstance(st, ast.If) and "slice" in ast.unparse(st.test)), None)
+    ctx.need(sl_branch is not None, "slice branch of Annotation.__getitem__")
+    pre = []
+    for st in sl_branch.body:
+        if isinstance(st, (ast.For, ast.While)):
+            break
+        pre.append(st)
+    benv = summarize_block(pre).env
     ctx.ob("R2.slice-bounds", ANN, "Annotation.__getitem__", str(sorted(bounds.items())),
-           "index.start" in bounds.get("i_first", []) and "index.stop - 1" in bounds.get("i_last", []),
+           same_expr(benv.get("i_first"), "-sys.maxsize if index.start is None else index.start")
+           and same_expr(benv.get("i_last"), "sys.maxsize if index.stop is None else index.stop - 1"),
            "inclusive bounds of the slice must be start and stop - 1", ag.lineno)
     # scope test
     scope = [n for n in ast.walk(ag) if isinstance(n, ast.If) and isinstance(n.test, ast.BoolOp)
